@@ -488,3 +488,5 @@ def run(ctx):
     ctx.run_rule("R4.6", "every matcher in src/rules is built with the regex crate's default semantics (no unicode(false), case_insensitive, multi_line .. on a builder) [E-SITE]", r4_6, floor=3)
     ctx.run_rule("R4.7", "regex clean-up pass 1: the backslash is kept in front of every regex metacharacter incl. the backslash, and in front of letters [E-TABLE]", r4_7, floor=3)
     ctx.run_rule("R4.5", "escape decoder tables (letter escapes, \\xHH radix 16 x2 digits, \\0OO radix 8, \\\\) [E-TABLE]", r4_5, floor=6)
+    from . import c01
+    ctx.run_rule("R4.8", "the text every rule kind compares is the line without its line feed(s) only: trim_newlines names no character but `\\n` (shared with C01 R1.9) [E-TABLE of constants]", c01.r1_9, floor=3)
